@@ -1,5 +1,7 @@
 import RomeaModel.Ransac
+import RomeaModel.Sampler
 import RomeaProofs.RealInst
+import RomeaProofs.Lemmas.C06Sampler
 import Mathlib.Tactic.Linarith
 import Mathlib.Tactic.NormNum
 import Mathlib.Analysis.Real.Sqrt
@@ -9,7 +11,9 @@ import Mathlib.Analysis.Real.Sqrt
 
 What is proved here is about the model `RomeaModel/Ransac.lean`: the adaptive iteration bound, the RANSAC loop over
 an arbitrary `RansacModel`, the consensus bookkeeping of the rigid-transformation model, the ICP one-to-one filter
-and the ICP outer loop.  All geometry is universally quantified (oracle outputs).  Scalars are `ℝ` (exact values of
+and the ICP outer loop — and, in the last section, about `RomeaModel/Sampler.lean`: the random engine, `generate_canonical`,
+the cumulative weights, the lower-bound search and the weight update of `RansacRandomCorrespondences`.  All other geometry
+(candidate transformations, errors, nearest neighbours) is universally quantified (oracle outputs).  Scalars are `ℝ` (exact values of
 the doubles); the only partial operation on these paths is `sum / n` with `n = 0`, which the `n ≥ minimal inliers`
 guard excludes (`minInlOf dim > 0`), so Mathlib's totalised division is harmless — stated where it matters.
 
@@ -652,7 +656,8 @@ theorem estimateModel_ret_iff {S : Type} (ops : ModelOps S) (p eps : ℝ) (cap :
 `  r.flag = true ∧ ‖r.transformation − H(tx, ty, θ)‖_F ≤ 0.015`
 and the analogous statement for synthetic correspondence sets with up to 30 % gross outliers.  Neither is a theorem of
 this development: they are statements about the numerical behaviour of the whole pipeline (kd-tree matching, PCA
-normals, the Mersenne-twister sampler, Eigen's decompositions) on one data file.  They are exercised by the probe in
+normals, Eigen's decompositions — the `minstd_rand0` sampler itself is inside the model since the section "The RANSAC sampler"
+below) on one data file.  They are exercised by the probe in
 `tools/props/c06.py` on the real code; the probe currently finds the known non-convergent corner
 `tx ≥ 0.18 ∧ ty ≥ 0.18 ∧ θ ≥ 0.045` (open finding). -/
 
@@ -704,5 +709,325 @@ example : (icpFind 10 (0.001 : ℝ) [1, 0, 0, 1] 100 []).1 = false := by
   simp at hst
 
 end Examples
+
+end Romea.C06
+
+
+/-! # The RANSAC sampler (`RansacRandomCorrespondences`) and its random engine
+
+Theorems about `RomeaModel/Sampler.lean` (tied bit-exactly to the C++ by the `smp.*` ops of the correspondence check).
+Scalars: `ℝ` for both the weights (`double`) and the point coordinates; the only partial operation is the division by the
+total weight in `computeCumSumWeights_`, whose guard `0 < total` is an explicit hypothesis wherever it matters; the
+all-weights-zero case (`0/0`) is treated at `RN` (`collapse_draws_index_zero`): there the C++ compares NaNs, every
+comparison fails and `std::lower_bound` answers index 0.  The theorems about the engine hold for the exact integers the
+C++ computes (`Nat`), those about which engine state a history leaves behind hold at EVERY scalar type, the executed
+`Float` / `Float32` included.  Helpers: `RomeaProofs/Lemmas/C06Sampler.lean`. -/
+namespace Romea.C06
+open Romea.Sampler
+
+/-! ## The engine -/
+
+/-- **the LCG never sticks**: a state in `[1, 2^31 − 2]` is followed by a state in `[1, 2^31 − 2]`; every seed gives such a
+    state (the default-constructed engine starts at 1) and so does every number of steps after any seed.  State 0 — the
+    one the generator could never leave — is therefore unreachable. -/
+theorem engine_state_in_range_forever :
+    (∀ x, InRange x → InRange (next x)) ∧ (∀ s n, InRange (next^[n] (seed s))) ∧ engineInit = 1 ∧ next 0 = 0 :=
+  ⟨fun _ h => next_inRange h, fun s n => iterate_next_inRange (seed_inRange s) n, engineInit_eq, by decide⟩
+
+example : InRange 1 ∧ InRange 2147483646 ∧ ¬ InRange 0 := by unfold InRange lcgM; omega
+
+/-- **`generate_canonical` is in (0, 1)**: from every legitimate engine state the variate handed to `std::lower_bound` is
+    `((g₁ − 1) + (g₂ − 1)·r)/r²` (`g₁, g₂` the next two engine outputs, `r = 2^31 − 2`), strictly between 0 and 1: the
+    `nextafter` clamp is dead over the reals, and `u = 0` would need `g₁ = g₂ = 1`, impossible because 1 is followed by 16807. -/
+theorem uniform_variate_in_unit_interval (x : Nat) (h : InRange x) :
+    (uniform01 (α := ℝ) x).1 = next (next x) ∧
+    (uniform01 (α := ℝ) x).2 =
+      (((next x - 1 : Nat) : ℝ) + ((next (next x) - 1 : Nat) : ℝ) * 2147483646) / (2147483646 * 2147483646) ∧
+    0 < (uniform01 (α := ℝ) x).2 ∧ (uniform01 (α := ℝ) x).2 < 1 := by
+  obtain ⟨a, b, c⟩ := uniform01_range h
+  exact ⟨c, by rw [uniform01_real h], a, b⟩
+
+example : InRange engineInit := by rw [engineInit_eq]; unfold InRange lcgM; omega
+
+/-! ## Cumulative weights and the search -/
+
+/-- **cumulative weights**: for non-negative weights with a positive total, `cumSumWeights_` has the length of the weights,
+    entry `i` is (sum of the first `i + 1` weights)/total, the entries are non-decreasing, lie in [0, 1], and the last one is
+    exactly 1. -/
+theorem cumulative_weights_monotone (w : List ℝ) (hw : ∀ x ∈ w, 0 ≤ x) (hs : 0 < w.sum) :
+    (cumSum w).length = w.length ∧ (cumSum w).Pairwise (· ≤ ·) ∧ (∀ x ∈ cumSum w, 0 ≤ x ∧ x ≤ 1) ∧
+    (cumSum w).getLast? = some 1 := by
+  have hne : w ≠ [] := by intro e; subst e; simp at hs
+  have hlen := cumSum_length w
+  refine ⟨hlen, ?_, ?_, ?_⟩
+  · rw [List.pairwise_iff_getElem]
+    intro i j hi hj hij
+    rw [cumSum_getElem w i (by rw [← hlen]; exact hi), cumSum_getElem w j (by rw [← hlen]; exact hj)]
+    exact div_le_div_of_nonneg_right (sum_take_mono w hw (by omega)) (le_of_lt hs)
+  · intro x hx
+    rw [List.mem_iff_getElem] at hx
+    obtain ⟨i, hi, rfl⟩ := hx
+    rw [cumSum_getElem w i (by rw [← hlen]; exact hi)]
+    exact ⟨div_nonneg (sum_take_nonneg w hw _) (le_of_lt hs), by
+      rw [div_le_one hs]; exact sum_take_le_sum w hw _⟩
+  · have hl : 0 < w.length := List.length_pos_iff.mpr hne
+    rw [List.getLast?_eq_getElem?, List.getElem?_eq_getElem (by rw [hlen]; omega)]
+    simp only [hlen]
+    rw [cumSum_getElem w (w.length - 1) (by omega), show w.length - 1 + 1 = w.length by omega, List.take_length,
+      div_self (ne_of_gt hs)]
+
+example : cumSum [(1 : ℝ), 1, 2] = [1 / 4, 2 / 4, 4 / 4] := by
+  norm_num [cumSum, partialSums, psFrom]
+
+/-- **the binary search is the inverse CDF**: on a non-decreasing list `std::lower_bound` (the halving search of libstdc++)
+    returns the first position whose entry is not below `u` — every earlier entry is `< u`, every entry from it on is `≥ u` —
+    or the length if there is none. -/
+theorem lower_bound_is_first_not_below (cum : List ℝ) (hc : cum.Pairwise (· ≤ ·)) (u : ℝ) :
+    lowerBound cum u ≤ cum.length ∧
+    (∀ j (hj : j < cum.length), j < lowerBound cum u → cum[j] < u) ∧
+    (∀ j (hj : j < cum.length), lowerBound cum u ≤ j → u ≤ cum[j]) := by
+  have hget : ∀ j (hj : j < cum.length), cum.getD j u = cum[j] := fun j hj => by
+    simp [List.getD_eq_getElem?_getD, hj]
+  obtain ⟨a, b, c⟩ := lowerBound_spec cum u (by
+    intro i j hij hj hB
+    unfold Below at hB ⊢
+    rw [hget j hj] at hB
+    rw [hget i (by omega)]
+    rcases Nat.lt_or_ge i j with h | h
+    · exact lt_of_le_of_lt (List.pairwise_iff_getElem.mp hc i j (by omega) hj h) hB
+    · have : i = j := by omega
+      subst this; exact hB)
+  refine ⟨a, fun j hj hlt => ?_, fun j hj hle => ?_⟩
+  · have := b j hlt
+    unfold Below at this
+    rwa [hget j hj] at this
+  · have := c j hle hj
+    unfold Below at this
+    rw [hget j hj] at this
+    exact not_lt.mp this
+
+example : lowerBound [(1 : ℝ) / 4, 2 / 4, 4 / 4] (2 / 4) = 1 ∧ lowerBound [(1 : ℝ) / 4, 2 / 4, 4 / 4] (3 / 4) = 2 := by
+  constructor
+  · rw [lowerBound, lowerBoundFrom_unfold]; norm_num
+    rw [lowerBoundFrom_unfold]; norm_num
+    rw [lowerBoundFrom_unfold]; norm_num
+  · rw [lowerBound, lowerBoundFrom_unfold]; norm_num
+    rw [lowerBoundFrom_unfold]; norm_num
+    rw [lowerBoundFrom_unfold]; norm_num
+
+/-- **the drawn index is in bounds and has positive weight**: for non-negative weights with positive total and a variate
+    `0 < u < 1` the index `std::distance(begin, lower_bound(cum, u))` is `< n`, its weight is strictly positive, and it is
+    the inverse CDF: (sum of the weights before it)/total `< u ≤` (sum up to and including it)/total. -/
+theorem drawn_index_in_bounds_positive_weight (w : List ℝ) (hw : ∀ x ∈ w, 0 ≤ x) (hs : 0 < w.sum) (u : ℝ)
+    (hu0 : 0 < u) (hu1 : u < 1) :
+    ∃ h : lowerBound (cumSum w) u < w.length,
+      0 < w[lowerBound (cumSum w) u] ∧
+      (w.take (lowerBound (cumSum w) u)).sum / w.sum < u ∧
+      u ≤ (w.take (lowerBound (cumSum w) u + 1)).sum / w.sum :=
+  drawIndex_spec w hw hs u hu0 hu1
+
+/-- **the sampling law**: index `i` is drawn exactly for the variates in the half-open interval
+    `(cum[i−1], cum[i]]` (with `cum[−1] = 0`), whose length is `w[i]/total` — the correspondences are drawn with
+    probability proportional to their current weight (for an ideal uniform variate). -/
+theorem drawn_index_iff (w : List ℝ) (hw : ∀ x ∈ w, 0 ≤ x) (hs : 0 < w.sum) (u : ℝ) (hu0 : 0 < u) (hu1 : u < 1)
+    (i : Nat) :
+    lowerBound (cumSum w) u = i ↔ ((w.take i).sum / w.sum < u ∧ u ≤ (w.take (i + 1)).sum / w.sum) := by
+  obtain ⟨hr, _, hlo, hhi⟩ := drawIndex_spec w hw hs u hu0 hu1
+  constructor
+  · intro h; rw [h] at hlo hhi; exact ⟨hlo, hhi⟩
+  · rintro ⟨h1, h2⟩
+    rcases Nat.lt_trichotomy (lowerBound (cumSum w) u) i with hlt | heq | hgt
+    · exfalso
+      have := div_le_div_of_nonneg_right (sum_take_mono w hw (show lowerBound (cumSum w) u + 1 ≤ i by omega)) (le_of_lt hs)
+      linarith
+    · exact heq
+    · exfalso
+      have := div_le_div_of_nonneg_right (sum_take_mono w hw (show i + 1 ≤ lowerBound (cumSum w) u by omega)) (le_of_lt hs)
+      linarith
+
+example : lowerBound (cumSum [(1 : ℝ), 1, 2]) (3 / 5) = 2 := by
+  rw [drawn_index_iff [1, 1, 2] (by simp) (by norm_num) (3 / 5) (by norm_num) (by norm_num) 2]
+  norm_num
+
+/-- **`u = 0` characterised**: a variate `u ≤ 0` selects index 0 whatever its weight — the one way a zero-weight
+    correspondence could be drawn while the total is positive.  `uniform_variate_in_unit_interval` shows the engine never
+    produces it. -/
+theorem zero_variate_draws_index_zero (w : List ℝ) (hw : ∀ x ∈ w, 0 ≤ x) (hs : 0 < w.sum) (u : ℝ) (hu : u ≤ 0) :
+    lowerBound (cumSum w) u = 0 :=
+  drawIndex_of_nonpos w hw hs u hu
+
+example : ∃ w : List ℝ, (∀ x ∈ w, 0 ≤ x) ∧ 0 < w.sum ∧ w[lowerBound (cumSum w) 0]? = some 0 :=
+  ⟨[0, 1], by simp, by simp, by
+    rw [zero_variate_draws_index_zero [0, 1] (by simp) (by simp) 0 (le_refl _)]; rfl⟩
+
+/-- **the collapsed case** (`RN`: `0/0 = NaN`, comparisons with NaN false): when every weight is 0 every cumulative weight
+    is NaN and `std::lower_bound` answers index 0 for every `u` — the code then returns `correspondences[0]`, possibly
+    again and again: the distinct-target guarantee below needs a positive weight at every draw. -/
+theorem collapse_draws_index_zero (w : List RN) (hw : ∀ x ∈ w, x = RN.of 0) (u : RN) :
+    (∀ x ∈ cumSum w, x = RN.nan) ∧ lowerBound (cumSum w) u = 0 :=
+  ⟨(cumSum_zero_RN w hw).2, lowerBound_collapsed_RN w hw u⟩
+
+example : cumSum [RN.of 0, RN.of 0] = [RN.nan, RN.nan] := by
+  simp [cumSum, partialSums, psFrom, RN.div_zero]
+
+/-! ## The weights -/
+
+/-- **weights stay within [0, 1] × their loaded value** — for EVERY state of the object with a legitimate engine, every
+    point set, every correspondence list with non-negative weights and every number of draws (collapsed or not): after
+    `drawPoints` the object holds one weight per correspondence, each between 0 and the weight of its correspondence, the
+    cumulative weights are those of the weights, and the engine state is legitimate again. -/
+theorem weights_stay_within_initial (o : SumOrder) (st : State ℝ ℝ) (pts : Array (List ℝ)) (corrs : List (Corr ℝ))
+    (k : Nat) (he : InRange st.engine) (hw : ∀ c ∈ corrs, 0 ≤ c.weight) :
+    let r := st.drawPoints o pts corrs k
+    r.2.length = k ∧ r.1.weights.length = corrs.length ∧ r.1.cum = cumSum r.1.weights ∧ InRange r.1.engine ∧
+    ∀ n (hn : n < corrs.length), 0 ≤ r.1.weights.getD n 0 ∧ r.1.weights.getD n 0 ≤ corrs[n].weight := by
+  intro r
+  have hb := drawLoop_base o pts corrs _ k _ (reload_base st corrs he hw)
+  rw [← drawPoints_eq] at hb
+  refine ⟨drawLoop_length o pts corrs k _, hb.len, hb.cum, hb.eng, fun n hn => ?_⟩
+  have := hb.bnd n hn
+  have e : (corrs.map (·.weight)).getD n 0 = corrs[n].weight := by
+    rw [getD_of_lt _ _ (by simpa using hn), List.getElem_map]
+  rwa [e] at this
+
+/-- **drawn targets are zeroed, hence pairwise distinct** — as long as some weight is positive whenever a point is drawn
+    (`NoCollapse`): every drawn index is in bounds and its correspondence had a positive weight, the target indexes of the
+    `k` drawn correspondences are pairwise distinct (so the `k` correspondences are distinct), and afterwards every
+    correspondence sharing its target index with a drawn one has weight 0. -/
+theorem drawn_targets_zeroed_and_distinct (o : SumOrder) (st : State ℝ ℝ) (pts : Array (List ℝ))
+    (corrs : List (Corr ℝ)) (k : Nat) (he : InRange st.engine) (hw : ∀ c ∈ corrs, 0 ≤ c.weight)
+    (hnc : NoCollapse o pts corrs k (reload st corrs)) :
+    let r := st.drawPoints o pts corrs k
+    (∀ i ∈ r.2, ∃ h : i < corrs.length, 0 < corrs[i].weight) ∧
+    (r.2.map (tgtAt corrs)).Nodup ∧ r.2.Nodup ∧
+    (∀ d ∈ r.2, ∀ n, n < corrs.length → tgtAt corrs n = tgtAt corrs d → r.1.weights.getD n 0 = 0) := by
+  intro r
+  obtain ⟨a, b, c⟩ := drawLoop_alive o pts corrs _ k [] _ (reload_base st corrs he hw) (zeroed_nil corrs _) hnc
+  rw [← drawPoints_eq] at a b c
+  refine ⟨fun i hi => ?_, b, (List.Nodup.of_map _ b), fun d hd n hn ht => ?_⟩
+  · obtain ⟨h1, h2, _⟩ := a i hi
+    refine ⟨h1, ?_⟩
+    rwa [getD_of_lt _ _ (by simpa using h1), List.getElem_map] at h2
+  · exact (c d (by simpa using hd)).2 n hn ht
+
+/-- **one-to-one lists never collapse**: if the correspondences have positive weights and pairwise distinct targets (the
+    ICP filter's post-condition `one_to_one_nodup` gives distinct sources; the matching step gives each target once), the
+    source points of different correspondences differ along an axis with non-zero `scale_`, and `k ≤ n`, then NO draw
+    meets collapsed weights: the `k` drawn correspondences are in bounds and pairwise distinct, with pairwise distinct
+    target indexes and pairwise distinct source indexes. -/
+theorem one_to_one_draws_distinct_correspondences (o : SumOrder) (st : State ℝ ℝ) (pts : Array (List ℝ))
+    (corrs : List (Corr ℝ)) (k : Nat) (he : InRange st.engine) (hws : WellSpread st.scale pts corrs)
+    (hk : k ≤ corrs.length) :
+    let r := st.drawPoints o pts corrs k
+    NoCollapse o pts corrs k (reload st corrs) ∧
+    r.2.length = k ∧ (∀ i ∈ r.2, i < corrs.length) ∧ r.2.Nodup ∧
+    (r.2.map (tgtAt corrs)).Nodup ∧ (r.2.map (srcAt corrs)).Nodup := by
+  intro r
+  have hw : ∀ c ∈ corrs, 0 ≤ c.weight := fun c hc => le_of_lt (hws.wpos c hc)
+  have hnc : NoCollapse o pts corrs k (reload st corrs) :=
+    noCollapse_of_wellSpread o pts corrs _ st.scale hws k [] _ (reload_base st corrs he hw) (zeroed_nil corrs _)
+      (by
+        intro n hn _
+        simp only [reload]
+        rw [getD_of_lt _ _ (by simpa using hn), List.getElem_map]
+        exact hws.wpos _ (List.getElem_mem _))
+      rfl List.nodup_nil (by simpa using hk)
+  obtain ⟨a, b, c, _⟩ := drawn_targets_zeroed_and_distinct o st pts corrs k he hw hnc
+  refine ⟨hnc, drawLoop_length o pts corrs k _, fun i hi => (a i hi).1, c, b, ?_⟩
+  rw [List.nodup_map_iff_inj_on c]
+  intro i hi j hj hij
+  exact hws.src_inj i j (a i hi).1 (a j hj).1 hij
+
+/-- the hypotheses of `one_to_one_draws_distinct_correspondences` (and with them `NoCollapse`, the hypothesis of
+    `drawn_targets_zeroed_and_distinct`) are met by three correspondences on the corners of a triangle, unit scale -/
+private theorem wellSpread_example :
+    WellSpread [1, 1] #[[0, 0], [1, 0], [0, 1]] [⟨0, 5, 1⟩, ⟨1, 3, 1⟩, ⟨2, 4, 2⟩] := by
+  refine ⟨?_, ?_, ?_⟩
+  · intro c hc
+    simp only [List.mem_cons, List.not_mem_nil, or_false] at hc
+    rcases hc with rfl | rfl | rfl <;> norm_num
+  · intro i j hi hj h
+    simp only [List.length_cons, List.length_nil] at hi hj
+    have hi' : i = 0 ∨ i = 1 ∨ i = 2 := by omega
+    have hj' : j = 0 ∨ j = 1 ∨ j = 2 := by omega
+    rcases hi' with rfl | rfl | rfl <;> rcases hj' with rfl | rfl | rfl <;> simp [tgtAt] at h ⊢
+  · intro i j hi hj hne
+    simp only [List.length_cons, List.length_nil] at hi hj
+    have hi' : i = 0 ∨ i = 1 ∨ i = 2 := by omega
+    have hj' : j = 0 ∨ j = 1 ∨ j = 2 := by omega
+    rcases hi' with rfl | rfl | rfl <;> rcases hj' with rfl | rfl | rfl <;>
+      simp [srcAt, pointAt, scaledSquares] at hne ⊢
+
+example : NoCollapse .left #[[0, 0], [1, 0], [0, 1]] [⟨0, 5, 1⟩, ⟨1, 3, 1⟩, ⟨2, 4, 2⟩] 3
+    (reload ⟨1, [1, 1], [], []⟩ [⟨0, 5, 1⟩, ⟨1, 3, 1⟩, ⟨2, 4, 2⟩]) :=
+  (one_to_one_draws_distinct_correspondences .left ⟨1, [1, 1], [], []⟩ _ _ 3 (by show 1 ≤ 1 ∧ 1 ≤ lcgM - 1; unfold lcgM; omega)
+    wellSpread_example (by simp)).1
+
+/-- … and three draws from them return a permutation of the three indexes -/
+example : ((⟨1, [1, 1], [], []⟩ : State ℝ ℝ).drawPoints .left #[[0, 0], [1, 0], [0, 1]]
+    [⟨0, 5, 1⟩, ⟨1, 3, 1⟩, ⟨2, 4, 2⟩] 3).2.Nodup :=
+  (one_to_one_draws_distinct_correspondences .left ⟨1, [1, 1], [], []⟩ _ _ 3 (by show 1 ≤ 1 ∧ 1 ≤ lcgM - 1; unfold lcgM; omega)
+    wellSpread_example (by simp)).2.2.2.1
+
+/-- without `computeScale` (`scale_ = 0`, the constructor's value) the down-weighting factor is 0 for every pair of
+    points: the hypothesis `WellSpread.spread` is not vacuous -/
+example : downWeight (α := ℝ) .left ([0, 0] : List ℝ) [3, 4] [1, 2] = 0 := by
+  simp [downWeight, scaledSquares, sumOrdered]
+
+/-! ## Determinism -/
+
+/-- **only the engine and `scale_` persist**: `drawPoints` reloads the weights, so whatever `weights_` and
+    `cumSumWeights_` held before the call does not influence the call.  Holds at every scalar type (`Float` included). -/
+theorem draw_ignores_stale_weights {α β : Type}
+    [Add α] [Sub α] [Mul α] [Div α] [LT α] [DecidableLT α] [LE α] [DecidableLE α] [NatCast α] [Trans α]
+    [Add β] [Sub β] [Mul β] [Div β] [Neg β] [NatCast β] [Trans β] [Widen β α]
+    (o : SumOrder) (st : State α β) (w' c' : List α) (pts : Array (List β)) (corrs : List (Corr α)) (k : Nat) :
+    ({ st with weights := w', cum := c' } : State α β).drawPoints o pts corrs k = st.drawPoints o pts corrs k :=
+  drawPoints_stale o st w' c' pts corrs k
+
+/-- **the engine is never reseeded and advances by exactly two steps per drawn point**, whatever the inputs are: after ANY
+    history of calls (`computeScale`, `drawPoints`, `resetWeights_`) the engine state is the start state advanced by twice
+    the number of points drawn so far.  Holds at every scalar type (the engine is integer arithmetic). -/
+theorem engine_after_history {α β : Type}
+    [Add α] [Sub α] [Mul α] [Div α] [LT α] [DecidableLT α] [LE α] [DecidableLE α] [NatCast α] [Trans α]
+    [Add β] [Sub β] [Mul β] [Div β] [Neg β] [NatCast β] [Trans β] [Widen β α]
+    (o : SumOrder) (size : Nat) (cs : List (Call α β)) :
+    ((State.init size : State α β).run o cs).1.engine = next^[2 * totalDraws cs] 1 := by
+  rw [run_engine]; rfl
+
+/-- **deterministic per object**: what a history of calls returns is a function of the engine state and `scale_` it starts
+    from and of the calls — nothing else.  In particular two freshly constructed objects (`State.init`: engine 1, zero
+    scale) given the same calls return the same indexes call by call and end in the same engine state; and an object that
+    has already drawn `m` points answers like a fresh one whose engine was advanced by `2m` steps.  Every scalar type. -/
+theorem history_deterministic {α β : Type}
+    [Add α] [Sub α] [Mul α] [Div α] [LT α] [DecidableLT α] [LE α] [DecidableLE α] [NatCast α] [Trans α]
+    [Add β] [Sub β] [Mul β] [Div β] [Neg β] [NatCast β] [Trans β] [Widen β α]
+    (o : SumOrder) (cs : List (Call α β)) (s1 s2 : State α β) (he : s1.engine = s2.engine) (hs : s1.scale = s2.scale) :
+    (s1.run o cs).2 = (s2.run o cs).2 ∧ (s1.run o cs).1.engine = (s2.run o cs).1.engine ∧
+    (s1.run o cs).1.scale = (s2.run o cs).1.scale :=
+  run_engine_scale o cs s1 s2 he hs
+
+/-- two fresh objects, the same history (of any length): the same answers -/
+theorem fresh_objects_agree {α β : Type}
+    [Add α] [Sub α] [Mul α] [Div α] [LT α] [DecidableLT α] [LE α] [DecidableLE α] [NatCast α] [Trans α]
+    [Add β] [Sub β] [Mul β] [Div β] [Neg β] [NatCast β] [Trans β] [Widen β α]
+    (o : SumOrder) (size : Nat) (cs : List (Call α β)) (stale : State α β)
+    (he : stale.engine = engineInit) (hs : stale.scale = List.replicate size zero) :
+    (stale.run o cs).2 = ((State.init size : State α β).run o cs).2 :=
+  (run_engine_scale o cs stale (State.init size) he hs).1
+
+/-- a history with two draws of 3 and 4 points leaves a fresh object's engine 14 steps from the seed; the first six of
+    them are the published `minstd_rand0` sequence 16807, 282475249, 1622650073, 984943658, 1144108930, 470211272 -/
+example : next^[6] 1 = 470211272 := by decide
+
+example : totalDraws ([Call.draw #[] [] 3, Call.scale [] [], Call.draw #[] [] 4, Call.reset] : List (Call ℝ ℝ)) = 7 := by
+  simp [totalDraws, callDraws]
+
+/-- `history_deterministic` / `fresh_objects_agree` apply to a used object whose leftovers differ from a fresh one's -/
+example : (⟨engineInit, List.replicate 2 zero, [0.5, 0.25], [1, 1]⟩ : State ℝ ℝ).engine = engineInit ∧
+    (⟨engineInit, List.replicate 2 zero, [0.5, 0.25], [1, 1]⟩ : State ℝ ℝ).scale = List.replicate 2 zero ∧
+    (⟨engineInit, List.replicate 2 zero, [0.5, 0.25], [1, 1]⟩ : State ℝ ℝ).weights ≠ (State.init 2 : State ℝ ℝ).weights := by
+  refine ⟨rfl, rfl, ?_⟩
+  simp [State.init]
 
 end Romea.C06
